@@ -740,6 +740,10 @@ impl CliOptions for GetOptsOptions {
         for (key, val) in self.inline_config {
             config.override_value(&key, &val);
         }
+        // `--check` never writes, whatever `--config emit_mode=..` says.
+        if self.check {
+            config.set_cli().emit_mode(EmitMode::Diff);
+        }
     }
 
     fn config_path(&self) -> Option<&Path> {
